@@ -242,6 +242,26 @@ CLAIMS: dict = {
         technique='contract-based deductive verification: typestate (ghost transaction) obligations over the effect '
                   'log produced by AST-level symbolic execution of the real functions',
         engines=['pyvc', 'sqlvc']),
+    'C20': dict(
+        category='proof',
+        text='The real expat handlers of lmf._make_parser are executed symbolically for every element name of the '
+             'WN-LMF DTDs (and unknown names) x version x first/later occurrence on an arbitrary parent: an element that '
+             'does not exist in the declared version or a repeated single-valued child raises LMFError on every path; '
+             'list children are appended after the earlier ones; metadata/text/external markers and the stack '
+             'discipline are as specified; character data is whitespace-normalised at end(). is_lmf == is_xml and '
+             '_read_header accepts; load() reads the header through the same _read_header first; _add_lmf completes '
+             'lmf.load before the only writing function starts (inside the transaction of C06). The element tables '
+             'equal the DTD inventory (sidecar). What dump() writes is accepted: obligations of C02.',
+        note='Only bounded (generated documents x single faults, never counted as proved): rejection of missing '
+             'required attributes (28 element/attribute pairs) by the _validate_* assertions, ill-formed XML through '
+             'expat, header line variants, and scan_lexicons == load on valid variants; add() leaves every table '
+             'unchanged after each rejected document. Known finding K6: scan_lexicons is a regular expression and '
+             'disagrees with load() on four kinds of valid start tags. Python run with -O would drop the assertions '
+             '(unchecked).',
+        technique='contract-based deductive verification: symbolic execution of the reader handlers per element/'
+                  'version/occurrence with decided post-conditions + z3 obligations; bounded single-fault sweep on the '
+                  'real functions',
+        engines=['pyvc', 'bounded']),
 }
 
 # property -> reason (every property that is not claimed)
